@@ -12,22 +12,51 @@ impl<T> fmt::Debug for SendError<T> { fn fmt(&self, f: &mut fmt::Formatter) -> f
 #[derive(Debug, PartialEq, Eq, Clone, Copy)] pub enum TryRecvError { Empty, Disconnected }
 
 pub fn unbounded<T>() -> (Sender<T>, Receiver<T>) {
-    let ch = Arc::new(Chan { id: new_obj(Obj::Chan { len: 0, senders: 1, receivers: 1 }), q: Mutex::new(VecDeque::new()) });
+    let ch = Arc::new(Chan { id: new_obj(Obj::Chan { len: 0, senders: 1, receivers: 1, cap: usize::MAX }), q: Mutex::new(VecDeque::new()) });
     (Sender { ch: ch.clone() }, Receiver { ch })
 }
+/// bounded channel: `send` blocks while the channel is full (cap 0 is modelled as cap 1)
+pub fn bounded<T>(cap: usize) -> (Sender<T>, Receiver<T>) {
+    let ch = Arc::new(Chan { id: new_obj(Obj::Chan { len: 0, senders: 1, receivers: 1, cap: cap.max(1) }), q: Mutex::new(VecDeque::new()) });
+    (Sender { ch: ch.clone() }, Receiver { ch })
+}
+#[derive(Debug, PartialEq, Eq, Clone, Copy)] pub enum RecvError { Disconnected }
+pub use RecvError::Disconnected as RecvDisconnected;
+pub enum TrySendError<T> { Full(T), Disconnected(T) }
+impl<T> fmt::Debug for TrySendError<T> { fn fmt(&self, f: &mut fmt::Formatter) -> fmt::Result { f.write_str("TrySendError(..)") } }
 impl<T> Clone for Sender<T> { fn clone(&self) -> Self { with_obj(self.ch.id, |o| if let Obj::Chan { senders, .. } = o { *senders += 1 }); Sender { ch: self.ch.clone() } } }
 impl<T> Drop for Sender<T> { fn drop(&mut self) { with_obj(self.ch.id, |o| if let Obj::Chan { senders, .. } = o { *senders = senders.saturating_sub(1) }); } }
 impl<T> Drop for Receiver<T> { fn drop(&mut self) { with_obj(self.ch.id, |o| if let Obj::Chan { receivers, .. } = o { *receivers = receivers.saturating_sub(1) }); } }
 impl<T> fmt::Debug for Sender<T> { fn fmt(&self, f: &mut fmt::Formatter) -> fmt::Result { f.write_str("Sender { .. }") } }
 impl<T> fmt::Debug for Receiver<T> { fn fmt(&self, f: &mut fmt::Formatter) -> fmt::Result { f.write_str("Receiver { .. }") } }
 impl<T> Sender<T> {
-    pub fn send(&self, t: T) -> Result<(), SendError<T>> {
+    pub fn try_send(&self, t: T) -> Result<(), TrySendError<T>> {
         point(Op::Send(self.ch.id));
+        let st = with_obj(self.ch.id, |o| if let Obj::Chan { receivers, len, cap, .. } = o { if *receivers == 0 { 2 } else if *len >= *cap { 1 } else { *len += 1; 0 } } else { 2 });
+        match st { Some(0) | None => { self.ch.q.lock().unwrap().push_back(t); Ok(()) } Some(1) => Err(TrySendError::Full(t)), _ => Err(TrySendError::Disconnected(t)) }
+    }
+    pub fn len(&self) -> usize { self.ch.q.lock().unwrap().len() }
+    pub fn is_empty(&self) -> bool { self.len() == 0 }
+    pub fn send(&self, t: T) -> Result<(), SendError<T>> {
+        let bounded = with_obj(self.ch.id, |o| matches!(o, Obj::Chan { cap, .. } if *cap != usize::MAX)).unwrap_or(false);
+        point(if bounded { Op::SendBounded(self.ch.id) } else { Op::Send(self.ch.id) });
         let alive = with_obj(self.ch.id, |o| if let Obj::Chan { receivers, len, .. } = o { if *receivers > 0 { *len += 1; true } else { false } } else { false });
         match alive { Some(false) => Err(SendError(t)), _ => { self.ch.q.lock().unwrap().push_back(t); Ok(()) } }
     }
 }
 impl<T> Receiver<T> {
+    /// blocking receive
+    pub fn recv(&self) -> Result<T, RecvError> {
+        point(Op::Recv(self.ch.id));
+        match self.ch.q.lock().unwrap().pop_front() {
+            Some(t) => { with_obj(self.ch.id, |o| if let Obj::Chan { len, .. } = o { *len -= 1 }); Ok(t) }
+            None => Err(RecvError::Disconnected),
+        }
+    }
+    pub fn try_iter(&self) -> impl Iterator<Item = T> + '_ { std::iter::from_fn(move || self.try_recv().ok()) }
+    pub fn iter(&self) -> impl Iterator<Item = T> + '_ { std::iter::from_fn(move || self.recv().ok()) }
+    pub fn len(&self) -> usize { self.ch.q.lock().unwrap().len() }
+    pub fn is_empty(&self) -> bool { self.len() == 0 }
     pub fn try_recv(&self) -> Result<T, TryRecvError> {
         point(Op::TryRecv(self.ch.id));
         match self.ch.q.lock().unwrap().pop_front() {
@@ -36,13 +65,21 @@ impl<T> Receiver<T> {
         }
     }
 }
-pub struct Select<'a> { ids: Vec<ObjId>, _p: std::marker::PhantomData<&'a ()> }
+pub struct Select<'a> { ids: Vec<Option<ObjId>>, _p: std::marker::PhantomData<&'a ()> }
 impl<'a> Select<'a> {
     pub fn new() -> Self { point(Op::Yield("select-new")); Select { ids: vec![], _p: std::marker::PhantomData } }
-    pub fn recv<T>(&mut self, r: &'a Receiver<T>) -> usize { self.ids.push(r.ch.id); self.ids.len() - 1 }
+    pub fn recv<T>(&mut self, r: &'a Receiver<T>) -> usize { self.ids.push(Some(r.ch.id)); self.ids.len() - 1 }
+    /// removes a previously added operation (as in the real crate, panics if it is not there)
+    pub fn remove(&mut self, index: usize) { assert!(self.ids.get(index).map(|x| x.is_some()).unwrap_or(false), "index out of bounds; {index} was already removed"); self.ids[index] = None; }
+    fn live(&self) -> Vec<ObjId> { self.ids.iter().flatten().copied().collect() }
+    pub fn try_ready(&mut self) -> Result<usize, ()> {
+        point(Op::Yield("try-ready"));
+        let ready = self.stub_ready_set();
+        if ready.is_empty() { Err(()) } else { Ok(ready[choose(ready.len())]) }
+    }
     pub fn ready(&mut self) -> usize {
-        point(Op::SelectReady(self.ids.clone()));
-        let ready: Vec<usize> = self.ids.iter().enumerate().filter(|(_, id)| with_obj(**id, |o| matches!(o, Obj::Chan { len, senders, .. } if *len > 0 || *senders == 0)).unwrap_or(false)).map(|(i, _)| i).collect();
+        point(Op::SelectReady(self.live()));
+        let ready = self.stub_ready_set();
         if ready.is_empty() { return 0; }
         ready[choose(ready.len())]
     }
@@ -52,6 +89,6 @@ impl<'a> Select<'a> {
 impl<'a> Select<'a> {
     /// indices that `ready()` may return right now (empty = it would block)
     pub fn stub_ready_set(&self) -> Vec<usize> {
-        self.ids.iter().enumerate().filter(|(_, id)| with_obj(**id, |o| matches!(o, Obj::Chan { len, senders, .. } if *len > 0 || *senders == 0)).unwrap_or(false)).map(|(i, _)| i).collect()
+        self.ids.iter().enumerate().filter(|(_, id)| id.map(|id| with_obj(id, |o| matches!(o, Obj::Chan { len, senders, .. } if *len > 0 || *senders == 0)).unwrap_or(false)).unwrap_or(false)).map(|(i, _)| i).collect()
     }
 }
